@@ -45,6 +45,16 @@ TEXT = {
             "deterministic game (intervals 1..12); a deliberately diverging game is detected by every peer within 3 "
             "intervals with the checksums the games really saved (TLA+ predicates over the logged events).",
             "DESIGN.md section 3 C09"),
+    "C10": ("Three/four-peer behaviours with a dying peer: TLC-simulated behaviours of System.tla replayed on real "
+            "sessions (Trace_Sys conformance) and random runs; the TLA+ monitor demands no panic, coherent survivor "
+            "timelines and one common cut-off.  The genuine defect of the pinned library in the class 'survivors hold "
+            "different amounts of the dropped player's input' is a known finding matched by a monitor-computed history "
+            "class; violations outside that class are reported.", "DESIGN.md section 3 C10"),
+    "C11": ("Owner-side truth is defined by the documented delay semantics in TLA+ (Props.tla Submit/SetDelay); System.tla "
+            "with run-time set_input_delay is explored exhaustively (reliable FIFO network, delays {0,1,2}, 1-2 local "
+            "players) with the monitor as invariant, two regression runs with the pinned pre-fix behaviour must fail; TLC "
+            "schedules and random delay sequences 0..6 are executed on real sessions and judged by the monitor (owner, "
+            "remotes and spectators use identical inputs, nothing stranded).", "DESIGN.md section 3 C11"),
 }
 
 NOTE = ("Trusted: TLC 1.8.0 + CommunityModules, the harness projection (world.rs) and virtual clock shim, the "
